@@ -95,3 +95,38 @@ Example btc_genesis_hash : Some (sha256d btc_genesis_header) = option_map genesi
 Proof. vm_compute. reflexivity. Qed.
 Example btc_genesis_merkle : Merkle.merkle_root H2 [[59; 163; 237; 253; 122; 123; 18; 178; 122; 199; 44; 62; 103; 118; 143; 97; 127; 200; 27; 195; 136; 138; 81; 50; 58; 159; 184; 170; 75; 30; 94; 74]] = Ok (firstn 32 (skipn 36 btc_genesis_header)).
 Proof. vm_compute. reflexivity. Qed.
+
+(* ---------- C09 corollaries in the property's words ---------- *)
+(* a processed block whose prev-hash field differs from the indexed hash of the preceding height is rejected (merkle root being right) *)
+Theorem bad_prev_rejected c idx b h p : h <> 0 -> hm_get (h - 1) idx = Some p -> h_prev (b_header (y_blk b)) <> r_hash p ->
+  Merkle.merkle_root H2 (map x_id (y_txs b)) = Ok (h_merkle (b_header (y_blk b))) -> verify_block c idx b h = Some (FErr EPrev).
+Proof.
+  intros Hh Hp Hne Hm. unfold verify_block. rewrite Hm. destruct (beqb_spec (h_merkle (b_header (y_blk b))) (h_merkle (b_header (y_blk b)))) as [_|X]; [|congruence].
+  cbn [negb]. destruct (N.eqb_spec h 0); [contradiction|]. rewrite Hp. destruct (beqb_spec (h_prev (b_header (y_blk b))) (r_hash p)); [contradiction|reflexivity].
+Qed.
+Theorem bad_genesis_rejected c idx b : y_hash b <> genesis c ->
+  Merkle.merkle_root H2 (map x_id (y_txs b)) = Ok (h_merkle (b_header (y_blk b))) -> verify_block c idx b 0 = Some (FErr EGenesis).
+Proof.
+  intros Hne Hm. unfold verify_block. rewrite Hm. destruct (beqb_spec (h_merkle (b_header (y_blk b))) (h_merkle (b_header (y_blk b)))) as [_|X]; [|congruence].
+  cbn [negb]. replace (0 =? 0) with true by reflexivity. destruct (beqb_spec (y_hash b) (genesis c)); [contradiction|reflexivity].
+Qed.
+(* any change of transaction data that changes the merkle root of the txids is rejected; whether a change of bytes changes a txid /
+   the root is a property of SHA-256 (collision resistance), stated as the hypothesis, never assumed *)
+Theorem changed_root_rejected c idx b h r : Merkle.merkle_root H2 (map x_id (y_txs b)) = Ok r -> r <> h_merkle (b_header (y_blk b)) ->
+  verify_block c idx b h <> None.
+Proof. intros Hr Hne. rewrite (verify_block_merkle_first c idx b h r Hr Hne). discriminate. Qed.
+(* verification looks at a block only through its header fields, its hash and its txids: witness bytes (not covered by any txid) cannot change the verdict *)
+Theorem verify_depends_on_txids_only c idx b b' h :
+  map x_id (y_txs b) = map x_id (y_txs b') -> b_header (y_blk b) = b_header (y_blk b') -> y_hash b = y_hash b' -> verify_block c idx b h = verify_block c idx b' h.
+Proof. intros E1 E2 E3. unfold verify_block. now rewrite E1, E2, E3. Qed.
+
+(* ---------- C12: every derived row is the same with and without the AuxPoW section (only the stored length prefix differs) ---------- *)
+Theorem rows_independent_of_section c h b b' :
+  b_size b = b_size b' -> b_header b = b_header b' -> b_txs b = b_txs b' ->
+  csv_block_writes (h, eval_block c b) = csv_block_writes (h, eval_block c b').
+Proof.
+  intros Es Eh Et. unfold csv_block_writes, eval_block, block_row, block_hash. cbn [y_blk y_hash y_txs]. now rewrite Es, Eh, Et.
+Qed.
+Theorem utxo_and_lines_independent_of_section c h b b' : b_txs b = b_txs b' ->
+  utxo_events [(h, eval_block c b)] = utxo_events [(h, eval_block c b')] /\ opreturn_lines [(h, eval_block c b)] = opreturn_lines [(h, eval_block c b')].
+Proof. intro Et. unfold utxo_events, opreturn_lines, eval_block. cbn [flat_map fst snd y_txs]. now rewrite Et. Qed.
